@@ -7,4 +7,7 @@ export CARGO_NET_OFFLINE=true
 ./build/target/release/translate lean/DL/Gen /repo
 ./build/target/release/translate2 lean/DL/Gen /repo
 (cd lean && lake build DL dlmodel)
+# the property theorems too, so that the first run of a check does not have to compile its proofs (C10-C12: minutes)
+mods=$(python3 -c "import props; print(' '.join(sorted({m for p in props.PROPS.values() for m in p.get('lean', [])})))")
+(cd lean && lake build $mods) || echo "setup: some property modules do not build; the checks will report which"
 cargo build --release --offline --example dlint --manifest-path /repo/Cargo.toml --target-dir /verif/build/dlint
